@@ -174,6 +174,10 @@ pub enum BOp {
     SelectByName(usize),
     /// find_return_block_indices(): a query; must not panic, must not change anything
     FindReturnBlocks,
+    /// ext_inst_import of "GLSL.std.450" (0) / "NonSemantic.DebugPrintf" (1): a module-level instruction, returns its id
+    Import(usize),
+    /// ext_inst whose set operand is the id returned by the most recent Import (not enabled before any import)
+    ExtInstVia,
 }
 
 pub fn op_str(o: &BOp) -> String {
@@ -387,6 +391,17 @@ pub fn replay(h: &[BOp]) -> Replay {
                     ok = true;
                     expected_inst = Some(inst("TypePointer", None, Some(id), vec![Arg::Enum("StorageClass", sc as u32), Arg::IdRef(pointee)]));
                 }
+                BOp::Import(k) => {
+                    ret_id = Some(b.ext_inst_import(["GLSL.std.450", "NonSemantic.DebugPrintf"][*k]));
+                    ok = true;
+                }
+                BOp::ExtInstVia => {
+                    let Some(set) = cur.secs[2].last().and_then(|i| i.rid) else {
+                        disabled = true;
+                        break 'steps;
+                    };
+                    ok = res_word!(b.ext_inst(RT, None, set, 1, vec![dr::Operand::IdRef(6)]));
+                }
                 BOp::NameFunction(k) => {
                     let Some(fid) = cur.fns.get(*k).and_then(|f| f.def.as_ref()).and_then(|d| d.rid) else {
                         disabled = true;
@@ -594,6 +609,19 @@ pub fn replay(h: &[BOp]) -> Replay {
                     }
                 }
                 BOp::SelectFunction(_) | BOp::SelectBlock(_) | BOp::PopInstruction => Pred::Adopt,
+                BOp::Import(k) => {
+                    let mut n = cur.clone();
+                    n.secs[2].push(inst("ExtInstImport", None, ret_id, vec![Arg::Str(["GLSL.std.450", "NonSemantic.DebugPrintf"][*k].to_string())]));
+                    Pred::Ok { snap: n, sel, fresh: ret_id }
+                }
+                BOp::ExtInstVia => {
+                    if !in_block {
+                        Pred::Fail
+                    } else {
+                        let set = cur.secs[2].last().and_then(|i| i.rid).unwrap();
+                        Pred::Ok { snap: append_block(&cur, inst("ExtInst", Some(RT), ret_id, vec![Arg::IdRef(set), Arg::ExtInstNo(1), Arg::IdRef(6)])), sel, fresh: ret_id }
+                    }
+                }
                 BOp::NameFunction(k) => {
                     let mut n = cur.clone();
                     let fid = cur.fns[*k].def.as_ref().unwrap().rid.unwrap();
